@@ -247,7 +247,7 @@ def eval_maxsize(case):
         # undecodable bytes have no character count but their own; the multi-byte ones exceed it in characters too
         p = {"bytes_ff": b"\xff" * n, "bytes_80_tail": b"a" * 4000 + b"\x80" * (n - 4000), "bytes_utf8_chars": "é".encode() * n,
              "text_multibyte": "é" * n, "bytes_ascii": b"a" * n, "bytes_truncated_utf8": b"\xe2\x82" * n}[shape]
-        key += ":" + shape
+        key = f"C05|any_hasher|maxsize:{via}:{shape}"  # one key per shape and entry point: the size check is shared by all hashers
     try:
         if via == "hasher":
             Hc = H.using(**kw) if kw else H
@@ -277,7 +277,7 @@ def eval_maxsize(case):
             continue
         if n > 4096:
             if err is None:
-                out.append((key + f":{op}_accepted", f"{op} accepted a {n}-character password (library maximum is 4096): {core.short(r, 60)}"))
+                out.append((key + f":{op}_accepted", f"{name}: {op} accepted a {n}-unit password {core.short(p, 24)} (library maximum is 4096): {core.short(r, 60)}"))
         else:
             if err is not None and not capped:
                 out.append((key + f":{op}_refused", f"{op} refused a {n}-character password with {err!r}"))
